@@ -287,7 +287,7 @@ func (w *Writer) fill(n *node, depth int, flat bool) {
 // Return true if not filled.
 func (w *Writer) checkAlign(n *node, start int, comma, cs []byte) bool {
 	c := n.genTables(w.SEN)
-	if c == nil || w.Width < start+c.size {
+	if c == nil || c.mixed() || w.Width < start+c.size {
 		return true
 	}
 	for i, m := range n.members {
